@@ -262,3 +262,54 @@ Proof.
     + reflexivity.
   - reflexivity.
 Qed.
+
+(* ---------------- the dump, in full ---------------- *)
+Definition probes_of (oc : option cstate) (ids : list id) : list probe :=
+  map (fun i => (i, match oc with Some x => by_id i (a_vers x) | None => None end,
+                    match oc with Some x => by_parent i (a_vers x) | None => None end)) ids.
+
+Lemma run_probe_full E ids aw :
+  exists t, run_prog AStoreB E (p_probe ids) aw = (Ok (probes_of (a_cl (aw_cur aw) (aw_cid aw)) ids), aw, t).
+Proof.
+  induction ids as [|i r IH].
+  - exists []. reflexivity.
+  - destruct IH as (t & Hl).
+    change (p_probe (i :: r)) with
+      (Do (EGetVersion i) (fun a => Do (EGetByParent i) (fun b => pbind (p_probe r) (fun l => Ret ((i, a, b) :: l))))).
+    cbn [run_prog].
+    change (b_eff AStoreB (option version) (EGetVersion i) aw) with
+      (@Ok (option version) (match a_cl (aw_cur aw) (aw_cid aw) with Some x => by_id i (a_vers x) | None => None end), aw).
+    cbv iota beta.
+    change (b_eff AStoreB (option version) (EGetByParent i) aw) with
+      (@Ok (option version) (match a_cl (aw_cur aw) (aw_cid aw) with Some x => by_parent i (a_vers x) | None => None end), aw).
+    cbv iota beta.
+    rewrite run_pbind_full, Hl. cbn. eexists. reflexivity.
+Qed.
+
+Definition dump_resp (oc : option cstate) (ids : list id) : resp :=
+  RDump (mkDump (option_map client_of oc)
+                (match oc with
+                 | Some x => match a_snap x with Some (m, d) => Some (Ok (Some d)) | None => None end
+                 | None => None
+                 end)
+                (probes_of oc ids)).
+
+Lemma dump_full cfg a c ids E : a_ok a = true ->
+  astep cfg a (ODump c ids) E = (dump_resp (a_cl a c) ids, a).
+Proof.
+  intros Hok. unfold astep, step. cbn [lib_handler fst snd dump_h run_hprog].
+  change (b_end AStoreB) with a_end. change (b_begin AStoreB) with a_begin.
+  cbn [run_prog]. change (b_eff AStoreB (option client) EGetClient (a_begin a c)) with
+    (@Ok (option client) (option_map client_of (a_cl a c)), a_begin a c).
+  cbv iota beta.
+  assert (He : a_end (a_begin a c) = a) by (unfold a_end, a_begin; cbn; rewrite Hok; reflexivity).
+  rewrite He. cbn [run_hprog]. change (b_end AStoreB) with a_end. change (b_begin AStoreB) with a_begin.
+  destruct (run_probe_full E ids (a_begin a c)) as (t & Hl). rewrite Hl, He.
+  change (a_cl (aw_cur (a_begin a c)) (aw_cid (a_begin a c))) with (a_cl a c).
+  unfold dump_resp.
+  destruct (a_cl a c) as [x|] eqn:Hc; cbn [option_map client_of c_snap].
+  - destruct (a_snap x) as [[m d]|] eqn:Hs; cbn [option_map fst].
+    + cbn. rewrite Hc, Hs. cbn. rewrite N.eqb_refl. cbn. rewrite Hok. reflexivity.
+    + reflexivity.
+  - reflexivity.
+Qed.
